@@ -241,6 +241,32 @@ fn vacuum_after_compaction() {
     }
 }
 
+/// dangling <segment|run>: a relationship stored in a compacted segment (or in an older run), then one end node is DETACH
+/// DELETEd in a newer transaction; no traversal from the surviving end may still return the relationship.
+fn dangling(older: &str) {
+    let mut detail = Vec::new();
+    let mut bad = false;
+    for victim in ["A", "B"] {
+        let d = tempfile::tempdir().unwrap();
+        let db = Db::open(d.path().join("g")).unwrap();
+        w(&db, "CREATE (:A {x:1})-[:R]->(:B {y:2})").unwrap();
+        if older == "segment" {
+            db.compact().unwrap();
+        }
+        w(&db, &format!("MATCH (n:{victim}) DETACH DELETE n")).unwrap();
+        let qs = if victim == "A" {
+            "MATCH (b:B)<-[r]-(x) RETURN count(r) AS c"
+        } else {
+            "MATCH (a:A)-[r]->(x) RETURN count(r) AS c"
+        };
+        let r = q(&db, qs);
+        let zero = matches!(&r, Ok(rs) if rs.len() == 1 && rs[0][0].1 == Value::Int(0));
+        bad |= !zero;
+        detail.push(format!("delete {victim}: `{qs}` => {:?}", r));
+    }
+    report("dangling", bad, detail.join("; "));
+}
+
 /// query <cypher>: prints rows (used by several E2 replays that only need one read query on an empty db).
 fn query(cy: &str) {
     let d = tempfile::tempdir().unwrap();
@@ -261,6 +287,7 @@ fn main() {
         "wal-body" => wal_body(&arg(2)),
         "multilabel-reopen" => multilabel_reopen(&arg(2)),
         "vacuum-after-compaction" => vacuum_after_compaction(),
+        "dangling" => dangling(&arg(2)),
         "query" => query(&arg(2)),
         _ => {
             eprintln!("unknown witness");
